@@ -181,6 +181,8 @@ type Machine struct {
 	pendAux          uint64
 	pendAuxSet       bool
 	ufLastNonEmpty   map[int]bool
+	ufCF             map[string]bool
+	ufSigOf          map[int]string
 	siteCache        map[token.Pos]string
 	lastIntrRes      Value
 	curFn            *ssa.Function
@@ -514,6 +516,7 @@ func (m *Machine) resetRun() {
 	m.observed = map[string]interface{}{}
 	m.ufApps = map[string][]*Term{}
 	m.ufInv = map[string]string{}
+	m.ufCF = map[string]bool{}
 	m.trace = m.trace[:0]
 	m.auxes = m.auxes[:0]
 	m.nodes = m.nodes[:0]
